@@ -31,10 +31,11 @@ InnerTypes ==
    I3 |-> InnerShape(<<Field("c", "int")>>, "val", 3),
    I4 |-> InnerShape(<<Field("B", "int")>>, "ptr", 4),
    I5 |-> InnerShape(<<Field("M", "func")>>, "none", 55),        \* a function-valued field named like the method; it returns 55
+   u1 |-> InnerShape(<<Field("Q", "int")>>, "none", 0),          \* a type whose NAME is unexported: its field Q is promoted, the embedded field `u1` is not visible
    D  |-> InnerShape(<<Embed("I1", FALSE), Field("B", "string")>>, "none", 0),
    E  |-> InnerShape(<<Embed("I4", TRUE), Field("c", "int")>>, "none", 0)]
 
-IsExported(name) == SubSeq(name, 1, 1) \in {"A", "B", "C", "D", "E", "I", "M", "N", "X", "Z"}
+IsExported(name) == SubSeq(name, 1, 1) \in {"A", "B", "C", "D", "E", "I", "M", "N", "Q", "X", "Z"}
 
 (* candidates for `name` in shape s: [depth, kind, ty, addr, path] (addr: needs an addressable   *)
 (* receiver; path: the member indices leading to it, so that two candidates are never confused) *)
